@@ -192,13 +192,19 @@ def _offtetra():
     return _tetra() * 0.6 + np.array([1.5, 0.5, -0.25])
 
 
+def _interior0():
+    # cube whose vertex list starts with a point strictly inside the hull: vertex 0 is referenced by no triangle
+    # (what make_convex_mesh returns for a point cloud with interior points)
+    return np.vstack([np.array([[0.05, 0.02, -0.03]]), _cube() * 0.8])
+
+
 _MESH_CACHE = {}
 
 
 def mesh_data(name):
     if name not in _MESH_CACHE:
         v = {"tetra": _tetra, "octa": _octa, "cube": _cube, "icosa": _icosa, "icosphere": _icosphere,
-             "skew": _skew, "offtetra": _offtetra}[name]()
+             "skew": _skew, "offtetra": _offtetra, "interior0": _interior0}[name]()
         v = np.ascontiguousarray(v, dtype=float)
         _MESH_CACHE[name] = (v, _triangulate(v).astype(np.int64))
     return _MESH_CACHE[name]
@@ -215,8 +221,8 @@ SIZES = {
     "box": [(1.0, 0.8, 0.6), (0.02, 0.01, 0.03), (100.0, 50.0, 70.0), (1.0, 0.5, 0.25), (1.0, 1.0, 1.0)],
     "disk": [0.5, 0.01, 50.0, 1.0],
     "ellipse": [(0.5, 0.3), (0.02, 0.01), (50.0, 20.0), (1.0, 0.25)],
-    "mesh": [("icosa", 1.0), ("tetra", 0.02), ("cube", 60.0), ("icosphere", 1.0), ("octa", 1.0), ("skew", 1.0), ("offtetra", 1.0)],
-    "hull": [("skew", 1.0), ("tetra", 0.02), ("cube", 60.0), ("icosphere", 1.0), ("octa", 1.0), ("icosa", 1.0), ("offtetra", 1.0)],
+    "mesh": [("icosa", 1.0), ("tetra", 0.02), ("cube", 60.0), ("icosphere", 1.0), ("octa", 1.0), ("skew", 1.0), ("offtetra", 1.0), ("interior0", 1.0)],
+    "hull": [("skew", 1.0), ("tetra", 0.02), ("cube", 60.0), ("icosphere", 1.0), ("octa", 1.0), ("icosa", 1.0), ("offtetra", 1.0), ("interior0", 1.0)],
 }
 
 
